@@ -16,7 +16,7 @@ import (
 
 var ruleIndentPair = &Rule{
 	ID:    "R-INDENTPAIR",
-	Doc:   "formatter layout discipline: every indentLevel++ is matched by an indentLevel-- on every path to return; indentation is written as indentLevel copies of a four-space unit; recorded end-of-line comments are written through strings.TrimSpace (no trailing whitespace); number literals are printed in plain decimal notation, the only one the lexer accepts",
+	Doc:   "formatter layout discipline: every indentLevel++ is matched by an indentLevel-- on every path to return; any other scalar field of the formatter state written by a function that can re-enter itself through the formatter is given back the value found on entry on every path to return (no state of a nested statement list leaks into the enclosing one); indentation is written as indentLevel copies of a four-space unit; recorded end-of-line comments are written through strings.TrimSpace (no trailing whitespace); number literals are printed in plain decimal notation, the only one the lexer accepts",
 	Floor: 6,
 	Run:   runIndentPair,
 }
